@@ -475,7 +475,10 @@ func (t *taskState) note(parts ...string) {
 func (t *taskState) noteBytes(ty reflect.Type, b []byte, err error) {
 	cb, cerr := world.Canon(ty, b)
 	if cerr != nil {
-		cb = b
+		// not a well-formed encoding of the type (another property's problem): the
+		// raw bytes may depend on map iteration order, their number does not
+		t.note("bytes-unparsed", fmt.Sprint(len(b)), errText(err))
+		return
 	}
 	t.note("bytes", string(cb), errText(err))
 }
